@@ -862,6 +862,7 @@ def _source_mutant(cls, attr, replacements):
     import textwrap
 
     func = cls.__dict__[attr]
+    func = getattr(func, "__func__", func)  # staticmethod / classmethod: the decorator line is part of the source
     src, first = inspect.getsourcelines(func)
     text = textwrap.dedent("".join(src))
     for old, new in replacements:
@@ -894,7 +895,27 @@ def _canary_b1_pdp_step_overlap():
     return _patch_many([(PDPRuinRepairEnv, "_step", f)])
 
 
+def _canary_torchrl_shallow_clone():
+    """RL4COEnvBase._torchrl_step steps on a shallow clone: the in-place incumbent update of the improvement
+    environments reaches the state the move was taken from."""
+    from rl4co.envs.common.base import RL4COEnvBase
+
+    f = _source_mutant(RL4COEnvBase, "_torchrl_step", [("td.clone()", "td.clone(recurse=False)")])
+    return _patch_many([(RL4COEnvBase, "_torchrl_step", f)])
+
+
+def _canary_pdp_mask_outer_index():
+    """PDPRuinRepairEnv.get_mask closes the columns of every row's removed pair in all rows."""
+    from rl4co.envs.routing.pdp.env import PDPRuinRepairEnv
+
+    f = _source_mutant(PDPRuinRepairEnv, "get_mask",
+                       [("mask[arange, :, selected_node.view(-1)] = True", "mask[:, :, selected_node.view(-1)] = True")])
+    return _patch_many([(PDPRuinRepairEnv, "get_mask", f)])
+
+
 C09.CANARIES = {
+    "torchrl_shallow_clone": _canary_torchrl_shallow_clone,
+    "pdp_mask_outer_index": _canary_pdp_mask_outer_index,
     "two_opt_short_loop": _canary_two_opt_short_loop,
     "kopt_short_loop": _canary_kopt_short_loop,
     "best_alias": _canary_best_alias,
